@@ -275,6 +275,15 @@ func ruleJ2(c *Ctx, m *Module, pkg, tag string) {
 				continue
 			}
 			g := m.callee(call.Common())
+			if g == nil && !call.Call.IsInvoke() && errResult(call) != nil {
+				// a helper called through a function value (e.g. the elements of a list of injectors)
+				if _, isFn := call.Call.Value.Type().Underlying().(*types.Signature); isFn {
+					seen["(func value)"]++
+					st, d := errPropagated(m, f, call)
+					c.addAt("J2", fmt.Sprintf("%s/%s/err/func-value#%d", tag, f.Name(), seen["(func value)"]), posIn(c, m, call.Pos()), boolStatus(st == "ok"), fmt.Sprintf("%s returns the error of the helper it calls through a function value", f.Name()), d)
+				}
+				continue
+			}
 			if g == nil || g.Pkg == nil || g.Pkg.Pkg.Path() != pkg || errResult(call) == nil {
 				if g != nil && errResult(call) != nil && strings.HasSuffix(g.String(), "yaml.Unmarshal") {
 					// decoding errors must also abort
